@@ -19,19 +19,22 @@ G: construct  every emitted plan is applied to the seed bytes (patches and trunc
               stream raises a BaseException at the bound, so a runaway loop costs no more than the bound), peak
               tracemalloc <= K_MEM*size + C_MEM on a deterministic sample of the plans, a wall-clock backstop through
               core.guard.  Exceptions of any class during enumeration are allowed ("terminates, by returning or by
-              raising").  Tag = the smallest bound witness of FaultWalk.tla contained in the plan (walker:fields=classes),
-              or `unexplained:<faults>` when the walker models did not predict it.
+              raising").  Tag = the smallest bound witness of FaultWalk.tla contained in the plan, named walker:driving fields
+              (e.g. verchain:info), or `unexplained:<fault kinds>` when the walker models did not predict it.
    witnesses  every minimal bound witness that TLC wrote out for the as-the-format-implies walkers is concretised on
               every seed that has the records (through the specification's single-fault table) and run like a plan:
               one that exceeds the bound reproduces the model's lasso in the code.
 Drift (model of the constructor says OK / ELFError, the code the other one) is reported, never a violation.
 
-Constants were calibrated on the unchanged tree (quick and thorough plan sets, 16 seeds): the largest ratios observed
-were: plans that leave every loop bounded by the file: reads/(size+1) <= 2.7, bytes/(size+1) <= 24; walks that are still
+Constants were calibrated on the unchanged tree (quick plan set, 10 seeds; re-checked on the thorough set, 16 seeds).  The
+largest ratios observed were: plans that leave every loop bounded by the file: reads/(size+1) <= 2.7, bytes/(size+1) <= 24; walks that are still
 linear but repeat one record `file size` times (a count field set to the file size on a chain that stalls at its last
 record): up to 24 reads and 322 bytes per byte of file; walks driven by a count that is independent of the file size
 (2^15 .. 2^32-1 iterations): 20 .. 10^6 reads per byte.  The bounds are x2 over the largest linear walk (x18 / x27 over
-the first group); peak memory of bounded plans stayed below 430 KB, the constant C_MEM alone covers it."""
+the first group).  Peak traced memory of bounded plans stayed below 430 KB (270 KB once the fixes are in); the largest
+linear walk (one parsed header object per iteration, file-size many iterations) needs about 600 bytes per byte of file.
+The memory bound is deliberately loose: every loop of the battery reads, so the read bounds catch runaway loops first; the
+memory bound is there for allocations that are not paid for by reads."""
 import io
 import json
 import os
@@ -44,14 +47,14 @@ LEVEL = 'fault_enumeration'
 
 K_READS = 48            # read() calls per byte of file
 K_BYTES = 640           # bytes read per byte of file
-K_MEM = 32              # peak traced bytes per byte of file ...
+K_MEM = 1024            # peak traced bytes per byte of file (one parsed record object per few bytes of file) ...
 C_MEM = 1 << 20         # ... plus a constant (parser construction: about 100 KiB on the unchanged tree)
 WALL_CTOR = 20.0        # generous wall backstops (seconds); the deterministic measures decide long before
 WALL_ENUM = 90.0
 N_RANDOM = 20000
 MEM_EVERY = 8           # tracemalloc on every 8th plan (and on every directed witness plan)
-RUNAWAY_LIMIT = {'quick': 2000, 'thorough': 12000}   # stop executing after that many runaway cases (each costs the full bound;
-                        # the unchanged tree has about 460 / 3600); the verdict is a violation long before
+RUNAWAY_LIMIT = {'quick': 800, 'thorough': 3000}   # stop executing after that many runaway cases (each costs the full bound;
+                        # the unchanged tree has about 460 / 1250); the verdict is a violation long before
 MAX_ENUM_FAILURES = 8
 
 # small corpus seeds (relative to the repository): relocatable object without program headers, section-less executable
@@ -322,6 +325,13 @@ def concretise_witness(wit, sftab):
     return alts
 
 
+def _kind(fault):
+    """A fault description without its position: field=class, `truncate`, `byte`."""
+    if '].' in fault:
+        return fault.split('].', 1)[-1]
+    return fault.split('(')[0].split('[')[0]
+
+
 def explain(plan_sf, wits, traits):
     """The smallest witness whose faults are all realised by the plan's field faults."""
     best = None
@@ -583,7 +593,7 @@ def check(run):
         if r['ctor'] == 'OK' and r['enum'] != 'ok':
             traits = set(sinfo[s].get('traits', []))
             w = explain(mt['sf'], wits, traits)
-            tag = w['id'] if w else 'unexplained:' + '+'.join(sorted(x.split('].', 1)[-1] if '].' in x else x for x in mt['f']))
+            tag = w['id'] if w else 'unexplained:' + '+'.join(sorted(_kind(x) for x in mt['f']))
             if w:
                 rep = wit_report[w['id']]['reproduced_on']
                 if sinfo[s]['id'] not in rep:
